@@ -1316,7 +1316,7 @@ def _schedule(prop, tier, seed):
                                      dict(template="stream_wfault", replay_template="stream", kind="dfa", T=t_, cap=c.maxlen + 1,
                                           fixed_inputs={"spare": 1, "fault": 1},
                                           symbolic=["stream bytes", "size of every read()", "index of the failing write() call"]),
-                                     timeout=1500, mem_gb=24, unwindset=stream_unwindset(c, t_, c.maxlen + 1),
+                                     timeout=1500, mem_gb=28, unwindset=stream_unwindset(c, t_, c.maxlen + 1),
                                      unsat_ok={"a writer failure after some output"},
                                      functions=["Automaton::try_stream_replace_all_with", "StreamChunkIter::new"] + F_STREAM + F_KIND["dfa"])
                         hs.append(hw)
